@@ -1049,6 +1049,21 @@ done:
 
 inline std::string clean(std::string t);
 #if OVL_TSAN
+} // namespace ovl
+// the ThreadSanitizer build is compiled without OpenMP (libgomp's barriers are invisible to it): a library that calls the omp_*
+// query functions outside a pragma still has to link -- outside a parallel region they answer for a team of one
+extern "C"
+{
+__attribute__((weak)) int omp_get_num_threads(void) { return 1; }
+__attribute__((weak)) int omp_get_thread_num(void) { return 0; }
+__attribute__((weak)) int omp_get_max_threads(void) { return 1; }
+__attribute__((weak)) int omp_get_num_procs(void) { return 1; }
+__attribute__((weak)) int omp_in_parallel(void) { return 0; }
+__attribute__((weak)) void omp_set_num_threads(int) {}
+__attribute__((weak)) void omp_set_dynamic(int) {}
+}
+namespace ovl
+{
 // ---------------------------------------------------------------- re-entrancy (ThreadSanitizer build)
 // Every overload is executed by T threads at the same time, each thread on its own private heap blocks (tag pass, stride 5 /
 // scattered indices).  (a) every thread's result must equal the sequential oracle; (b) the library code is instrumented
